@@ -505,6 +505,22 @@ func subReset() mon.Sub {
 				hist = append(hist, fmt.Sprintf("%s -> %q %v", optionText(o), optionText(ans), err))
 			}
 			e.Reset()
+			// what a new negotiator reports before it has seen anything - and after a handshake that offered
+			// no permessage-deflate at all - is what a reset one reports
+			{
+				fresh := &wsflate.Extension{Parameters: cfg}
+				if c.Rng.Intn(2) == 0 {
+					foreign := httphead.Option{Name: []byte("x-foreign")}
+					e.Negotiate(foreign)
+					fresh.Negotiate(foreign)
+				}
+				p1, ok1 := e.Accepted()
+				p2, ok2 := fresh.Accepted()
+				if p1 != p2 || ok1 != ok2 {
+					c.Fail("reset/accepted-before-offer", fmt.Sprintf("Accepted() of a reset negotiator reports %+v, %v before any new permessage-deflate offer; a new one reports %+v, %v", p1, ok1, p2, ok2), map[string]interface{}{"config": fmt.Sprintf("%+v", cfg), "history": hist})
+					return
+				}
+			}
 			for k := 0; k < 6; k++ {
 				c.Count(1)
 				of := offerOf(c.Rng.Intn(nOffer))
